@@ -68,7 +68,10 @@ def main():
         base = os.path.join(VERIF, kind)
         if not os.path.isdir(base) or (args.kind and args.kind != kind):
             continue
-        for cid in sorted(os.listdir(base)):
+        ids = sorted(os.listdir(base))
+        if kind == 'preserving' and os.path.isdir(os.path.join(base, 'micro')):
+            ids += ['micro/' + x for x in sorted(os.listdir(os.path.join(base, 'micro')))]
+        for cid in ids:
             patch = os.path.join(base, cid, 'patch.diff')
             if not os.path.exists(patch):
                 continue
@@ -111,7 +114,7 @@ def main():
                     continue
                 alarms = [p for p, (c, _) in res.items() if c == 1]
                 undec = [p for p, (c, _) in res.items() if c == 2]
-                print('preserving {:6} false alarms: {}  undecided: {}'.format(cid, ','.join(alarms) or '-', ','.join(undec) or '-'))
+                print('preserving {:14} false alarms: {}  undecided: {}'.format(cid, ','.join(alarms) or '-', ','.join(undec) or '-'))
                 bad += len(alarms)
                 if args.v:
                     for p in alarms + undec:
